@@ -91,6 +91,7 @@ def plan(tier, seed):
     # one element hit so often that a count accumulated in the data dtype would stop growing (2048 in float16, 256 in bfloat16)
     many = [{'many': n, 'dt': dt, 'lay': lay} for dt, ns in (('float16', (2047, 2050, 4100)), ('bfloat16', (258, 1030)), ('float32', (2050,)))
             for n in ns for lay in ('vec', 'last_of_2d')]
+    many += [{'many': 5, 'dt': 'float32', 'lay': lay} for lay in ('vec_numpy_index', 'vec_list_index')]   # the index array as the caller's NumPy array / list
     return [
         {'name': 'many', 'target': TARGET, 'x64': False, 'cases': many, 'chunk': 1},
         {'name': 'single', 'target': TARGET, 'x64': False, 'cases': cases, 'chunk': max(10, len(cases) // 300)},
@@ -360,8 +361,9 @@ def check_many(case, violations, counters):
     index = np.array([1] * n + [0, 2, 0, -1], dtype=np.int32)
     counts = np.bincount(index % 3, minlength=3)
     try:
-        if case['lay'] == 'vec':
-            op = IndexOperator(jnp.asarray(index), in_structure=jax.ShapeDtypeStruct((3,), D))
+        if case['lay'].startswith('vec'):
+            given = jnp.asarray(index) if case['lay'] == 'vec' else (index.copy() if 'numpy' in case['lay'] else index.tolist())
+            op = IndexOperator(given, in_structure=jax.ShapeDtypeStruct((3,), D))
             want = np.diag(np.asarray(jnp.asarray(counts, D), np.float64))
         else:
             op = IndexOperator((Ellipsis, jnp.asarray(index)), in_structure=jax.ShapeDtypeStruct((2, 3), D))
